@@ -5,9 +5,8 @@
   They are tied to the Go code by the correspondence harness (model bytes = Go bytes, model decode
   = Go decode, `harness/c03/driver.go`) and by the statement skeletons (Packs/Skeletons.lean).
 
-  * SMBasePack   `Write` dispatches on the dynamic type of `Cpu`/`Memory`, `Read` on `OS`: the writer
-                 layout is given per OS class (`kfld "OS" k`), the reader binds OS to a local and
-                 dispatches; the tail behind `Available() == 0` is `avail`.
+  (SMBasePack is transcribed by the translator since the second deepening round: the writer takes the
+   layouts of Cpu / Memory as parameters, the reader binds OS and dispatches — Gen.Packs.SMBasePack.)
   * StatGeneralPack   the cached table bytes travel as a 3-byte-length byte string; the table inside
                  (`writeTable`/`readTable`) is `StatGeneralTable`.
   * CounterPack1 every section, the four 9-marked meters, the deprecated okind meter, the unknown
@@ -18,28 +17,6 @@ import Golib.Gen.PackLayouts
 
 namespace Packs.Irregular
 open Layout
-
-/-! ### SMBasePack -/
-
-def extraTail : L := .opt "Extra" (.fld "Extra" .mapV .any .nil) .nil
-
-/-- `SMBasePack.Write` for a pack whose OS is `os` and whose Cpu / CpuCore / Memory have layouts `cpu`, `mem` -/
-def SMBasePack.w (os : Int) (cpu mem : L) : L :=
-  .wrap (.hdr (.fld "IP" .i32 .i32 (.kfld "OS" .i16 os (.sub "Cpu" cpu (.rep .u8 "CpuCore" cpu
-    (.sub "Memory" mem (.fld "UpTime" .dec .i64 (.fld "EpochTime" .i64 .i64 extraTail)))))))) .nil
-
-def osSection (cpu mem : L) : L := .sub "Cpu" cpu (.rep .u8 "CpuCore" cpu (.sub "Memory" mem .nil))
-
-/-- `SMBasePack.Read`: `switch this.OS { case LINUX(1), OSX(3), AIX(5), HPUX(4): …Linux; case WINDOW(2): …Window }`,
-    no case for the other values -/
-def SMBasePack.r (cpuL memL cpuW memW : L) : L :=
-  .wrap (.hdr (.fld "IP" .i32 .i32 (.key "OS" .i16 "os"
-    (.ite ⟨.eq, "os", 1⟩ (osSection cpuL memL)
-      (.ite ⟨.eq, "os", 3⟩ (osSection cpuL memL)
-        (.ite ⟨.eq, "os", 5⟩ (osSection cpuL memL)
-          (.ite ⟨.eq, "os", 4⟩ (osSection cpuL memL)
-            (.ite ⟨.eq, "os", 2⟩ (osSection cpuW memW) .nil .nil) .nil) .nil) .nil)
-      (.fld "UpTime" .dec .i64 (.fld "EpochTime" .i64 .i64 (.avail extraTail))))))) .nil
 
 /-! ### StatGeneralPack -/
 
@@ -52,76 +29,62 @@ def StatGeneralPack1.l : L :=
 def StatGeneralTable.l : L :=
   .rep .i16 "data" (.fld "key" .blob .any (.fld "val" .anylist .any .nil)) .nil
 
-/-! ### CounterPack1 -/
+/-! ### CounterPack1
+
+  `Gen.Packs.CounterPack1.w` / `.r` are the transcriptions of `Write` / `Read`: every scalar field and the
+  Netstat / Websocket / Extra sections come from the source; the statements the translator does not
+  transcribe (helper calls, the DB-pool maps, the short arrays) are parameters (`g0 … : L → L`) whose
+  texts are `CounterPack1.wGaps` / `.rGaps` (pinned in Packs/Skeletons.lean).  The sections below fill them. -/
 
 def d32 (n : String) (rest : L) : L := .fld n .dec .i32 rest
 def d64 (n : String) (rest : L) : L := .fld n .dec .i64 rest
-def f32 (n : String) (rest : L) : L := .fld n .f32 .any rest
 
 def intIntMap (n : String) (rest : L) : L := .rep .dec n (d32 "key" (d32 "val" .nil)) rest
 
-/-- time, count, error (and the active count when `actx`) of a meter -/
+/-- time, count, error, active count of a meter: as written, and as read (`if ver >= 9 { Actx }`) -/
 def meterW (rest : L) : L := d64 "Time" (d32 "Count" (d32 "Error" (d32 "Actx" rest)))
 def meterR (rest : L) : L :=
   d64 "Time" (d32 "Count" (d32 "Error" (.ite ⟨.ge, "ver", 9⟩ (d32 "Actx" .nil) .nil rest)))
 
-/-- a sequence of items, each waiting for its continuation -/
-def seq (items : List (L → L)) (rest : L) : L := items.foldr (fun f r => f r) rest
-
-def head : L → L := seq [
-  d32 "Duration", d64 "Cputime", d64 "HeapTot", d64 "HeapUse", d64 "HeapPerm", d32 "HeapPendingFinalization",
-  d32 "GcCount", d64 "GcTime", d32 "ServiceCount", d32 "ServiceError", d64 "ServiceTime",
-  d32 "SqlCount", d32 "SqlError", d64 "SqlTime", d64 "SqlFetchCount", d64 "SqlFetchTime",
-  d32 "HttpcCount", d32 "HttpcError", d64 "HttpcTime", d32 "ActSvcCount", .fld "ActSvcSlice" .a8I16 .any,
-  f32 "Cpu", f32 "CpuSys", f32 "CpuUsr", f32 "CpuWait", f32 "CpuSteal", f32 "CpuIrq", f32 "CpuProc",
-  d32 "CpuCores", f32 "Mem", f32 "Swap", f32 "Disk",
-  d64 "ThreadTotalStarted", d32 "ThreadCount", d32 "ThreadDaemon", d32 "ThreadPeakCount",
-  .opt "DbNum" (intIntMap "DbNumActive" (intIntMap "DbNumIdle" .nil)),
-  .opt "Netstat" (.sub "Netstat" (d32 "Est" (d32 "FinW" (d32 "CloW" (d32 "TimW" .nil)))) .nil),
-  d32 "ProcFd", f32 "Tps", d32 "RespTime", .fld "ApType" .i16 .i16,
-  .opt "Websocket" (.sub "Websocket" (d32 "Count" (d64 "In" (d64 "Out" .nil))) .nil),
-  d64 "Starttime", d64 "PackDropped", d32 "HostIp", d32 "MacHash",
-  .opt "Extra" (.fld "Extra" .imapV .any .nil),
-  .fld "Pid" .i32 .i32, .fld "ActiveStat" .a8I16 .any,
-  d32 "ThreadPoolActiveCount", d32 "ThreadPoolQueueSize"]
-
-def tailFields : L → L := seq [
-  d32 "ContainerKey", f32 "TxDbcTime", f32 "TxSqlTime", f32 "TxHttpcTime", d32 "ApdexSatisfied", d32 "ApdexTolerated",
-  f32 "ArrivalRate", d32 "GcOldgenCount", .fld "Version" .u8 .u8, d64 "HeapMax", d32 "ProcFdMax", f32 "Metering",
-  d32 "ApdexTotal"]
-
-def lastFields : L := d32 "Resp90" (d32 "Resp95" (d64 "TimeSqrSum" .nil))
-
 def poidEntry : L :=
   d64 "PCode" (d32 "Oid" (d64 "Time" (d32 "Count" (d32 "Error" (.fld "Acts" .a8I16 .any (d32 "Actx" .nil))))))
 
-/-- `CounterPack1.Write` (with `writeShortArray(dout, m.Acts)` in the POid meter) -/
-def CounterPack1.w : L :=
-  .hdr (.wrap (head
-    (.mrep 9 "TxcallerOidMeter" (.fld "key" .i32 .i32 (meterW .nil))
-    (.mrep 9 "SqlMeter" (.fld "key" .i32 .i32 (meterW (d64 "FetchCount" (d64 "FetchTime" .nil))))
-    (.mrep 9 "HttpcMeter" (.fld "key" .i32 .i32 (meterW .nil))
-    (.mrep 9 "TxcallerGroupMeter" (d64 "PCode" (d32 "OKind" (meterW .nil)))
-    (.lit .dec 0
-    (.mopt 2 "TxcallerUnknown" (.sub "TxcallerUnknown" (meterW .nil) .nil)
-    (tailFields
-    (.rep .dec "TxcallerPOidMeter" poidEntry lastFields))))))))) .nil)
+/-- `writeShortArray(dout, this.ActSvcSlice)` / `this.ActSvcSlice = this.readShortArray(din)` -/
+def secActSvc (r : L) : L := .fld "ActSvcSlice" .a8I16 .any r
+/-- the DB-pool maps: one presence byte, then `IntIntMap.ToBytes` twice / `ToObject` twice -/
+def secDbNum (r : L) : L := .opt "DbNum" (intIntMap "DbNumActive" (intIntMap "DbNumIdle" .nil)) r
+/-- `WriteByte(byte(sz))` + shorts / `sz := ReadByte()` + `append(ReadShort())` -/
+def secActiveStat (r : L) : L := .fld "ActiveStat" .a8I16 .any r
 
-/-- `CounterPack1.Read` with its helpers (`readTxcallerOidMeter`, `readSqlMeter`, `readHttpcMeter`,
-    `readTxcallerGroupMeter`, `readTxcallerOkindMeterDeprecated`, `readTxcallerUnknown`,
-    `readTxcallerPOidMeter`) inlined -/
+/-- writeTxcallerOidMeter, writeSqlMeter, writeHttpcMeter, writeTxcallerGroupMeter -/
+def secMetersW (r : L) : L :=
+  .mrep 9 "TxcallerOidMeter" (.fld "key" .i32 .i32 (meterW .nil))
+  (.mrep 9 "SqlMeter" (.fld "key" .i32 .i32 (meterW (d64 "FetchCount" (d64 "FetchTime" .nil))))
+  (.mrep 9 "HttpcMeter" (.fld "key" .i32 .i32 (meterW .nil))
+  (.mrep 9 "TxcallerGroupMeter" (d64 "PCode" (d32 "OKind" (meterW .nil))) r)))
+/-- writeTxcallerOther -/
+def secUnknownW (r : L) : L := .mopt 2 "TxcallerUnknown" (.sub "TxcallerUnknown" (meterW .nil) .nil) r
+/-- writeTxcallerPOidMeter (with C05's fix: `writeShortArray(dout, m.Acts)`) -/
+def secPOidW (r : L) : L := .rep .dec "TxcallerPOidMeter" poidEntry r
+
+/-- readTxcallerOidMeter, readSqlMeter, readHttpcMeter, readTxcallerGroupMeter,
+    readTxcallerOkindMeterDeprecated, readTxcallerUnknown -/
+def secMetersR (r : L) : L :=
+  .vrep "ver" "TxcallerOidMeter" (.fld "key" .i32 .i32 (meterR .nil))
+  (.vrep "ver" "SqlMeter" (.fld "key" .i32 .i32 (meterR (d64 "FetchCount" (d64 "FetchTime" .nil))))
+  (.vrep "ver" "HttpcMeter" (.fld "key" .i32 .i32 (meterR .nil))
+  (.vrep "ver" "TxcallerGroupMeter"
+    (d64 "PCode" (.ite ⟨.le, "ver", 8⟩ (d64 "Time" (d32 "Count" (d32 "Error" .nil)))
+      (d32 "OKind" (d64 "Time" (d32 "Count" (d32 "Error" (d32 "Actx" .nil))))) .nil))
+  (.srep .dec (.skip .i32 (.skip .dec (.skip .dec (.skip .dec .nil))))
+  (.vopt "ver" "TxcallerUnknown"
+    (.sub "TxcallerUnknown" (d64 "Time" (d32 "Count" (d32 "Error" (.ite ⟨.ge, "ver", 2⟩ (d32 "Actx" .nil) .nil .nil)))) .nil) r)))))
+def secPOidR (r : L) : L := .vrep "ver" "TxcallerPOidMeter" poidEntry r
+
+def CounterPack1.w : L :=
+  Gen.Packs.CounterPack1.w secActSvc secDbNum secActiveStat secMetersW secUnknownW secPOidW
+
 def CounterPack1.r : L :=
-  .hdr (.wrap (head
-    (.vrep "ver" "TxcallerOidMeter" (.fld "key" .i32 .i32 (meterR .nil))
-    (.vrep "ver" "SqlMeter" (.fld "key" .i32 .i32 (meterR (d64 "FetchCount" (d64 "FetchTime" .nil))))
-    (.vrep "ver" "HttpcMeter" (.fld "key" .i32 .i32 (meterR .nil))
-    (.vrep "ver" "TxcallerGroupMeter"
-      (d64 "PCode" (.ite ⟨.le, "ver", 8⟩ (d64 "Time" (d32 "Count" (d32 "Error" .nil)))
-        (d32 "OKind" (d64 "Time" (d32 "Count" (d32 "Error" (d32 "Actx" .nil))))) .nil))
-    (.srep .dec (.skip .i32 (.skip .dec (.skip .dec (.skip .dec .nil))))
-    (.vopt "ver" "TxcallerUnknown"
-      (.sub "TxcallerUnknown" (d64 "Time" (d32 "Count" (d32 "Error" (.ite ⟨.ge, "ver", 2⟩ (d32 "Actx" .nil) .nil .nil)))) .nil)
-    (tailFields
-    (.vrep "ver" "TxcallerPOidMeter" poidEntry lastFields))))))))) .nil)
+  Gen.Packs.CounterPack1.r secActSvc secDbNum secActiveStat secMetersR secPOidR
 
 end Packs.Irregular
